@@ -464,7 +464,9 @@ class ParserText(ParserBase):
         try:
             value = self._parsable[self._parsed_length:]
             date_time = dateutil.parser.parse(six.ensure_text(value, self._encoding))
-            if date_time.tzinfo is not None and date_time.utcoffset() is not None:
+            if date_time.tzinfo is None or date_time.utcoffset() is None:
+                date_time = date_time.replace(tzinfo=dateutil.tz.UTC)
+            else:
                 date_time.astimezone(dateutil.tz.UTC)
         except (ValueError, OverflowError) as e:
             six.raise_from(InvalidValue(value, type(self), 'value'), e)
